@@ -20,6 +20,12 @@
 (* appends a frame to a byte stream, an independent ISO writer appends frames *)
 (* of its own (either ID, with or without CRC), Decode takes one frame off    *)
 (* the head of the stream and leaves the remainder.                           *)
+(*                                                                            *)
+(* A raw data block is an opaque byte string to ADTS: a frame descriptor      *)
+(* carries the block's content as a layout `pre` (literal bytes, possibly a   *)
+(* complete ADTS frame of this very specification, possibly only bytes that   *)
+(* look like a header) followed by pattern bytes.  Whatever the block holds,  *)
+(* the frame around it is header (+ error check) + block.                     *)
 EXTENDS Naturals, Sequences, LD
 
 CONSTANTS
@@ -28,8 +34,17 @@ CONSTANTS
   LibIds,      \* ID bit values the muxer may choose (the property leaves ID free)
   Frames,      \* descriptors of the frames the independent ISO writer may write
   MaxFrames,   \* frames written per behaviour
-  CrcCounted   \* TRUE: ISO 13818-7.  FALSE: named deviation 'CRC header counted as
+  CrcCounted,  \* TRUE: ISO 13818-7.  FALSE: named deviation 'CRC header counted as
                \* 7 bytes' (the 2 CRC bytes are skipped but raw = frame_length - 7)
+  PayFrames,   \* payload class 'a complete ADTS frame': descriptors of frames whose bytes
+               \* may be handed to Encode as its raw block
+  TwiceLens,   \* payload class 'wrapped twice': lengths n for Encode(Encode(n bytes))
+  PayHeads,    \* payload class 'looks like a header': byte tuples a raw block handed to
+               \* Encode may start with
+  PassThrough, \* FALSE: the raw block is opaque.  TRUE: named deviation 'a raw block that
+               \* is itself a complete ADTS frame is passed through, never muxed twice'
+  LenMod       \* 0: the decoder sees the true length of its input.  m > 0: named deviation
+               \* 'the length of the input is held in log2(m) bits' (65536: a 16-bit integer)
 
 VARIABLES
   asc,    \* the object's configuration record [obj, sfi, chan]
@@ -95,18 +110,30 @@ AdtsHdr(id, prot, profile, sfi, chan, fl, aux) ==
 \* fullness) are the encoder's own business.
 NamedMask == <<255, 247, 253, 195, 255, 224, 3>>
 
-\* A frame descriptor: [id, prot, profile, sfi, chan, n, fid, crc, aux];
-\* n raw bytes with pattern id fid; crc is the 16 bits of adts_error_check.
+\* A frame descriptor: [id, prot, profile, sfi, chan, n, fid, crc, aux, pre];
+\* a raw block of n bytes: the layout pre (<<>> for an ordinary block), then pattern
+\* bytes with pattern id fid; crc is the 16 bits of adts_error_check.
 FrameLen(f)  == HdrSize(f.prot) + f.n
 ConfigOk(f)  == f.profile \in 0..2 /\ f.sfi \in 1..12 /\ f.chan \in 1..7
-ValidFrame(f) == f.n >= 1 /\ FrameLen(f) <= MaxFrameLen /\ f.id \in 0..1 /\ f.prot \in 0..1
+ValidFrame(f) == /\ f.n >= 1 /\ FrameLen(f) <= MaxFrameLen /\ f.id \in 0..1 /\ f.prot \in 0..1
+                 /\ ByteLen(f.pre) <= f.n
 
-FrameLD(f) ==
+\* the raw data block: what the caller hands to the muxer / gets from the demuxer
+BodyLD(f) == f.pre \o (IF f.n > ByteLen(f.pre) THEN <<Fill(f.n - ByteLen(f.pre), f.fid)>> ELSE <<>>)
+HeadLD(f) ==
   <<Raw(AdtsHdr(f.id, f.prot, f.profile, f.sfi, f.chan, FrameLen(f), f.aux))>>
   \o (IF f.prot = 0 THEN <<U16(f.crc)>> ELSE <<>>)
-  \o <<Fill(f.n, f.fid)>>
+FrameLD(f) == HeadLD(f) \o BodyLD(f)
 
-RawOf(f) == [i \in 1..f.n |-> FillByte(f.fid, i - 1)]
+RawOf(f) == Bytes(BodyLD(f))
+
+\* ---- payload classes (what a raw block may look like; the property says "arbitrary")
+\* the block is the complete frame g (Encode(Encode(x)), ADTS carried in ADTS)
+PreFrame(g) == FrameLD(g)
+\* the block starts with a 12-bit sync word and the 4 bits behind it
+PreSync(nib) == <<Raw(<<255, 240 + nib>>)>>
+\* the block starts with the 7 header bytes of a frame of fl bytes (fl need not be the block's length)
+PreHdr(id, prot, profile, sfi, chan, fl) == <<Raw(AdtsHdr(id, prot, profile, sfi, chan, fl, Aux0))>>
 
 RECURSIVE StreamLD(_)
 StreamLD(fs) == IF fs = <<>> THEN <<>> ELSE FrameLD(Head(fs)) \o StreamLD(Tail(fs))
@@ -114,7 +141,9 @@ StreamLD(fs) == IF fs = <<>> THEN <<>> ELSE FrameLD(Head(fs)) \o StreamLD(Tail(f
 \* the frame the muxer writes for configuration a
 LibFrame(a, n, id, fid) ==
   [id |-> id, prot |-> 1, profile |-> ObjProfile(a.obj), sfi |-> a.sfi, chan |-> a.chan,
-   n |-> n, fid |-> fid, crc |-> 0, aux |-> Aux0]
+   n |-> n, fid |-> fid, crc |-> 0, aux |-> Aux0, pre |-> <<>>]
+\* ... for a raw block that starts with the layout pre
+LibFrameP(a, n, id, fid, pre) == [LibFrame(a, n, id, fid) EXCEPT !.pre = pre]
 
 \* --------------------------------------- byte-level reference decoder (total)
 DecErr(why) == [ok |-> FALSE, why |-> why, id |-> 0, layer |-> 0, prot |-> 0, profile |-> 0,
@@ -135,6 +164,9 @@ HdrDec(b) == [id      |-> (b[2] \div 8) % 2,
               bf      |-> (b[6] % 32) * 64 + b[7] \div 4,
               nrdb    |-> b[7] % 4]
 
+\* the length of its input as the decoder sees it
+BufLen(b) == IF LenMod = 0 THEN Len(b) ELSE Len(b) % LenMod
+
 DecodeOne(b) ==
   IF Len(b) < 7 THEN DecErr("short")
   ELSE IF b[1] # 255 \/ b[2] \div 16 # 15 THEN DecErr("sync")
@@ -142,7 +174,7 @@ DecodeOne(b) ==
            skip == HdrSize(h.prot)                             \* bytes in front of the raw block
            hs   == IF CrcCounted THEN HdrSize(h.prot) ELSE 7   \* what is subtracted from the length
        IN IF h.fl < hs THEN DecErr("length")
-          ELSE IF Len(b) < skip + (h.fl - hs) THEN DecErr("short")
+          ELSE IF BufLen(b) < skip + (h.fl - hs) THEN DecErr("short")
           ELSE [ok |-> TRUE, why |-> "", id |-> h.id, layer |-> h.layer, prot |-> h.prot,
                 profile |-> h.profile, sfi |-> h.sfi, chan |-> h.chan, fl |-> h.fl,
                 bf |-> h.bf, nrdb |-> h.nrdb,
@@ -162,18 +194,37 @@ SetASC(b) ==
   /\ got' = <<>> /\ last' = <<>>
   /\ UNCHANGED <<wire, pend, nw>>
 
+\* does a byte string look like exactly one complete ADTS frame?
+IsWholeFrame(b) == LET r == DecodeOne(b) IN r.ok /\ r.layer = 0 /\ r.left = <<>> /\ r.fl = Len(b)
+
+\* the bytes the muxer makes of the frame f it was asked for
+MuxBytes(f) == IF PassThrough /\ IsWholeFrame(RawOf(f)) THEN RawOf(f) ELSE Bytes(FrameLD(f))
+
 \* ADTS.Encode(raw) with a valid configuration ("user must set the asc first"):
-\* the frame goes to the stream
-Encode(n, id) ==
+\* the frame goes to the stream.  raw = n bytes starting with the layout pre.
+EncodeP(n, id, pre) ==
   /\ nw < MaxFrames
   /\ Accepted(asc.obj, asc.sfi, asc.chan)
-  /\ LET f == LibFrame(asc, n, id, nw + 1) IN
+  /\ LET f == LibFrameP(asc, n, id, nw + 1, pre) IN
        /\ ValidFrame(f)
-       /\ wire' = wire \o Bytes(FrameLD(f))
+       /\ wire' = wire \o MuxBytes(f)
        /\ pend' = Append(pend, f)
   /\ nw' = nw + 1 /\ res' = "ok"
   /\ got' = <<>> /\ last' = <<>>
   /\ UNCHANGED asc
+
+\* an ordinary raw block
+Encode(n, id) == EncodeP(n, id, <<>>)
+\* the raw block is a complete frame of the ISO writer
+EncodeFrame(g0, id) ==
+  LET g == [g0 EXCEPT !.fid = nw + 1] IN
+    ValidFrame(g) /\ ConfigOk(g) /\ EncodeP(FrameLen(g), id, PreFrame(g))
+\* the raw block is the frame this very object makes of n bytes: Encode(Encode(x))
+EncodeTwice(n, id) ==
+  /\ Accepted(asc.obj, asc.sfi, asc.chan)
+  /\ LET g == LibFrame(asc, n, id, nw + 1) IN ValidFrame(g) /\ EncodeP(FrameLen(g), id, PreFrame(g))
+\* the raw block of n bytes starts with bytes that look like a header
+EncodeHead(n, id, h) == Len(h) <= n /\ EncodeP(n, id, <<Raw(h)>>)
 
 \* the independent ISO 13818-7 writer appends one of its frames
 Write(f0) ==
@@ -202,6 +253,9 @@ Decode ==
 
 Next == \/ \E b \in AscInputs : SetASC(b)
         \/ \E n \in RawLens, id \in LibIds : Encode(n, id)
+        \/ \E g \in PayFrames, id \in LibIds : EncodeFrame(g, id)
+        \/ \E n \in TwiceLens, id \in LibIds : EncodeTwice(n, id)
+        \/ \E n \in RawLens, id \in LibIds, h \in PayHeads : EncodeHead(n, id, h)
         \/ \E f \in Frames : Write(f)
         \/ Decode
 Spec == Init /\ [][Next]_vars
